@@ -226,6 +226,26 @@ def crash_case(item):
                     anoms.append(dict(key='%s-succeeds-despite-failing-script:%s' % (tag, where), what='exit 0'))
             return 'ok'
 
+        # ---- what the queries say about the state the kill left behind (judged against what the recovery then rebuilds)
+        names = list(prog['oracle'](sources_of(pj, prog)))
+        listed = None
+        if not p2:
+            rq1, _ = pj.run(['redo-ood'], verif_log=False, timeout=40)
+            rq2, _ = pj.run(['redo-targets'], verif_log=False, timeout=40)
+            rq3, _ = pj.run(['redo-sources'], verif_log=False, timeout=40)
+            if rq1.status == 'exit' and rq2.status == 'exit' and rq3.status == 'exit' and rq1.rc == 0 and rq2.rc == 0 and rq3.rc == 0:
+                listed = (set(os.path.normpath(l) for l in rq1.out.split('\n') if l), set(os.path.normpath(l) for l in rq2.out.split('\n') if l),
+                          set(os.path.normpath(l) for l in rq3.out.split('\n') if l))
+                obs['query_rounds_after_a_kill'] = 1
+            elif any(common.panic_text(r_.err + r_.out) for r_ in (rq1, rq2, rq3)):
+                anoms.append(dict(key='after-kill:query-panic:%s' % where, what='a query aborted on the state the kill left behind'))
+
+        def ino(n):
+            try:
+                return os.lstat(os.path.join(pj.top, n)).st_ino
+            except OSError:
+                return None
+        ino_before = {n: ino(n) for n in names}
         if p2:
             r2, _ = pj.run(['redo-ifchange'] + prog['tops'], extra=dict(LD_PRELOAD=ensure_shim(), CRASH_CTR=ctr, CRASH_LOG=log, CRASH_AT=str(p2), CRASH_MODE=mode2,
                                                                          CRASH_ROOT=pj.top), verif_log=False, timeout=40)
@@ -241,6 +261,16 @@ def crash_case(item):
                 sets['second_crash_point_classes'] = ['%s:%s:%s' % (g[2], g[3], path_class(g[4], pj.top))]
         fail_mode = prog.get('expect_fail_until_fixed')
         v = judge('recovery', expect_ok=not fail_mode)
+        if listed is not None and not anoms:
+            ood, tg, sr = listed
+            for n in names:
+                rebuilt = ino(n) is not None and ino(n) != ino_before[n]
+                if rebuilt and n in tg and n not in ood:
+                    anoms.append(dict(key='after-kill:ood-misses-target-that-recovery-rebuilt:%s' % where,
+                                      what='after the kill redo-targets listed %s and redo-ood did not; the recovery run rebuilt it' % n))
+                if ino_before[n] is not None and n in sr and rebuilt:
+                    anoms.append(dict(key='after-kill:generated-target-listed-as-source:%s' % where,
+                                      what='after the kill redo-sources listed %s (a file redo generated and nobody touched); the recovery run rebuilt it' % n))
         if v == 'inconclusive':
             return dict(verdict='inconclusive', why='recovery watchdog without stuck witness', sample=dict(item=list(item)))
         # further edit of every source: targets must keep reacting
@@ -460,7 +490,7 @@ RULE = ('for each of 13 small programs (first builds and rebuilds of a chain, a 
         'state-changing libc calls (rename, unlink, create/truncating open, write/pwrite to regular files incl. the SQLite database, WAL and '
         'log files, ftruncate, mkdir) of all redo processes and SIGKILLs the calling process (mode self) or its whole process group (mode group) '
         'immediately before call number p; every p (quick: every third plus every call on a target or its temporary file, fewer programs) x both modes, each from a fresh replayed pre-history. '
-        'Recovery protocol: redo-ifchange (no clean-up) must finish, not be stuck, not panic, exit 0, leave every target equal to the oracle, '
+        'Before the recovery the three queries run on the state the kill left: a target that the recovery then rebuilds and that redo-targets lists must be in redo-ood, and no untouched generated file that the recovery rebuilds may be listed as a source. Recovery protocol: redo-ifchange (no clean-up) must finish, not be stuck, not panic, exit 0, leave every target equal to the oracle, '
         'not call an untouched file hand-edited; then every source is edited and the same is required again; integrity_check; no *.redo.tmp. '
         'Double kills: the recovery run itself is killed before a random call of its own (40 quick / 1500 thorough combinations), then a second recovery is judged the same way. Plus random-time whole-tree kills. Generated programs (120 quick / 4 000 thorough; the program generator of the history checks: default rules, checksummed and always targets, dynamic dependency lists, ifcreate watchers, outputs that are symbolic links, dependencies through a symlinked directory; no failing scripts): full build, 1-3 edits (sources, rules, dependency lists, watched paths, removed targets), a rebuild at -j1/-j3 killed before a random call, recovery and a further edit judged by the content oracle of the program. Non-trivial: the kill really happened. Distinct: (program, mode, point number).')
 ASSUME = ['crash points are libc-call aligned (cross-checked by random-time kills)', 'only the recovery runs are judged, never the crashed run',
